@@ -93,6 +93,21 @@ def run(res, f, tier):
             twins.append({"negative": neg, "rejected_with": codes, "positive": pos, "positive_compiles": rc_p == 0})
             if not ok:
                 raise Inconclusive("non-vacuity twins %s/%s did not behave as expected (%s)" % (neg, pos, twins[-1]))
+    # The second sentence of the property (concurrent evaluations of one shared ruleset return the same outcomes as
+    # sequential ones) is not a type fact.  Its structural premise is that evaluations share nothing mutable: the
+    # shared-state obligations of C12 (statics, thread-locals, interior-mutable fields, hand-written unsafe) are
+    # imported; a violation there is a violation here.
+    import c12
+    from framework import Result
+    r12 = Result("C12", "other")
+    c12.run(r12, f, tier)
+    shared = [v for v in r12.violations if v["key"].split("|")[1] in ("static", "field", "unsafe", "unsafe-impl", "unsafe-fn")]
+    obligations += 1
+    if shared:
+        res.violation("C18|shared-mutable-state", "evaluations running concurrently can observe each other through shared mutable state: %s" % [v["what"][:140] for v in shared[:3]],
+                      {"c12_findings": [v["key"] for v in shared]})
+    else:
+        discharged += 1
     # cross-reference with the driver's own facts: no hand-written `unsafe impl Send/Sync` in the crate
     unsafe_impls = [i for i in f.impls if i.get("unsafe")]
     res.coverage = {
